@@ -335,6 +335,7 @@ func (w *vC05World) check() {
 	for _, x := range w.accts {
 		st := w.lists[x].aclState
 		rt.Assert(len(st.readKeyChanges) == len(w.gens), "every-generation-is-listed")
+		rt.Assert(len(st.keys) == len(w.gens), "one-key-entry-per-generation")
 		rt.Assert(w.lists[x].aclState.Permissions(&vPub{id: x}) == w.perm(x), "views-agree-on-permissions")
 		derivable := vC05Derivable(w.log, x)
 		if !w.perm(x).NoPermissions() {
